@@ -28,6 +28,51 @@ if req.get("only_import"):
     json.dump(out, sys.stdout)
     sys.exit(0)
 
+if req.get("rebuild_only"):
+    # ---- a restart / analysis script: ONE public module imported, then documents written elsewhere are rebuilt by their registered names.
+    # Nothing else of the package is imported by hand.
+    from quansino import registry as _reg
+    from quansino.protocols import Criteria as _C, Integrator as _I, Move as _M, Operation as _O
+    _P = {"Move": _M, "Operation": _O, "Integrator": _I, "Criteria": _C}
+
+    def _canon(x):
+        if isinstance(x, np.ndarray):
+            return ["nd", str(x.dtype), list(x.shape), x.tolist()]
+        if isinstance(x, (np.integer, np.floating, np.bool_)):
+            return x.item()
+        if isinstance(x, Atoms):
+            return ["atoms", x.get_chemical_formula(), x.positions.tolist(), x.cell.array.tolist()]
+        if isinstance(x, dict):
+            return {str(k): _canon(v) for k, v in sorted(x.items(), key=lambda kv: str(kv[0]))}
+        if isinstance(x, (list, tuple)):
+            return [_canon(v) for v in x]
+        if hasattr(x, "to_dict") and not isinstance(x, type):
+            return ["obj", type(x).__name__, _canon(x.to_dict())]
+        if callable(x):
+            return ["callable", getattr(x, "__name__", "?")]
+        return x
+    out["rebuilt"] = {}
+    for key, spec in req["rebuild_only"].items():
+        rec = {}
+        try:
+            doc = decode(spec["doc"])
+            if spec["proto"] == "Simulation":
+                klass = _reg.get_class(doc["name"])
+            elif spec["proto"] == "Storage":
+                from quansino.utils.moves import MoveStorage as _MS      # (the table entry class itself is what the script asks for)
+                klass = _reg.get_typed_class(doc["name"], _MS)
+            else:
+                klass = _reg.get_typed_class(doc["name"], _P[spec["proto"]])
+            new = klass.from_dict(doc)
+            again = new.todict() if spec["proto"] == "Simulation" and hasattr(new, "todict") else new.to_dict()
+            if spec["proto"] != "Simulation" and _canon(decode(encode(again))) != _canon(decode(spec["doc"])):
+                rec["diff"] = True
+        except Exception as e:  # noqa: BLE001
+            rec["error"] = f"{type(e).__name__}: {str(e)[:200]}"
+        out["rebuilt"][key] = rec
+    json.dump(out, sys.stdout, default=str)
+    sys.exit(0)
+
 # ---- after the first import a user imports what he needs: the defining modules of the classes he builds
 mods = {}
 for m in pkgutil.walk_packages(quansino.__path__, "quansino."):
@@ -220,6 +265,8 @@ for cname in sorted(CLASSES):
             d = obj.to_dict()
             d2 = decode(encode(d))
             name = d2["name"]
+            if rep == 0:
+                out.setdefault("documents", {})[cname] = {"proto": pr or "Storage", "doc": encode(d)}
             if cname == "MoveStorage":
                 klass = registry.get_typed_class(name, CLASSES["MoveStorage"])
             else:
@@ -268,6 +315,7 @@ if req.get("simulations", True):
             mc.step_count = 9
             d = mc.todict() if req.get("via_todict", True) else mc.to_dict()
             d2 = decode(encode(d))
+            out.setdefault("documents", {})["sim:" + sname] = {"proto": "Simulation", "doc": encode(d)}
             klass = registry.get_class(d2["name"])
             new = klass.from_dict(d2)
             diffs = []
@@ -278,6 +326,17 @@ if req.get("simulations", True):
                     diffs.append([s, repr(canon(getattr(mc, s)))[:100], repr(canon(getattr(new, s, "<missing>")))[:100]])
             if canon(mc._rng.bit_generator.state) != canon(new._rng.bit_generator.state):
                 diffs.append(["generator state", "", ""])
+            # the decoded dictionary is an input: the first rebuilt simulation is used (atoms moved, array-valued settings re-tuned in place),
+            # then a second simulation is rebuilt from the SAME dictionary - it must still come out as the original
+            new.atoms.positions += 0.25
+            if hasattr(new, "external_stress"):
+                new.context.external_stress += 0.05
+            new2 = klass.from_dict(d2)
+            for s in settings + ["step_count", "_seed"]:
+                if canon(getattr(mc, s)) != canon(getattr(new2, s, "<missing>")):
+                    diffs.append([f"{s} (second rebuild from the same dictionary)", repr(canon(getattr(mc, s)))[:100], repr(canon(getattr(new2, s, "<missing>")))[:100]])
+            if new2.atoms is new.atoms or not np.array_equal(new2.atoms.positions, mc.atoms.positions):
+                diffs.append(["atoms (second rebuild from the same dictionary)", "as saved", "shared with / moved by the first rebuilt simulation"])
             rec["diffs"] = diffs
         except Exception as e:  # noqa: BLE001
             rec["errors"] = [f"{type(e).__name__}: {str(e)[:300]}"]
